@@ -141,6 +141,9 @@ def graph_embed_deprecated(A, max_mean_photon=1.0, make_traceless=False, rtol=1e
     if not np.allclose(A, np.transpose(A), rtol=rtol, atol=atol):
         raise ValueError("The matrix is not symmetric.")
 
+    # symmetric within (rtol, atol): decompose the exactly symmetric part, takagi tests |A - A^T| absolutely
+    A = (A + np.transpose(A)) / 2
+
     if make_traceless:
         A = A - np.trace(A) * np.identity(n) / n
 
@@ -183,6 +186,9 @@ def graph_embed(A, mean_photon_per_mode=1.0, make_traceless=False, rtol=1e-05, a
     if not np.allclose(A, np.transpose(A), rtol=rtol, atol=atol):
         raise ValueError("The matrix is not symmetric.")
 
+    # symmetric within (rtol, atol): decompose the exactly symmetric part, takagi tests |A - A^T| absolutely
+    A = (A + np.transpose(A)) / 2
+
     if make_traceless:
         A = A - np.trace(A) * np.identity(n) / n
 
@@ -224,7 +230,7 @@ def bipartite_graph_embed(A, mean_photon_per_mode=1.0, rtol=1e-05, atol=1e-08):
     A = scale * A
 
     if np.allclose(A, A.T, rtol=rtol, atol=atol):
-        s, u = takagi(A, tol=atol)
+        s, u = takagi((A + A.T) / 2, tol=atol)
         v = u
     else:
         u, s, v = np.linalg.svd(A)
